@@ -58,6 +58,11 @@ def run_one(prop, case, inst):
         res = {"ok": False, "sig": f"exc:{type(e).__name__}", "obs": traceback.format_exc()[-1500:], "exp": "no exception"}
     finally:
         signal.alarm(0)
+        try:
+            from eqlmc import isolate
+            isolate.forget_expressions()
+        except Exception:
+            pass
     return res
 
 
